@@ -596,5 +596,10 @@ func NormalizeAbsoluteFilePath(src string) string {
 
 // normalizeFirPath is linke NormalizeAbsoluteFilePath with a trailing slash.
 func NormalizeAbsoluteDirPath(path string) string {
-	return NormalizeAbsoluteFilePath(strings.TrimRight(path, "/")) + "/"
+	p := NormalizeAbsoluteFilePath(strings.TrimRight(path, "/"))
+	if p == "/" {
+		// the root itself: "/", not "//"
+		return p
+	}
+	return p + "/"
 }
